@@ -590,22 +590,27 @@ theorem every_request_gets_its_own_client (N : Net Addr Prefix) (cfg : Cfg Prefi
 
 /-! ## templates' httpInclude: the virtual sub-request -/
 
-/- FULL statement: for an outer peer that is not a trusted proxy, what the included sub-request is attributed
-   does not depend on the outer request's headers.  It FAILS on the tree as it is:
-   `include_attribution_full_fails` (Witness.lean) — the virtual request has the dummy remote address
-   127.0.0.1:10000 and the outer peer's headers; when loopback is trusted they are honoured. -/
-
-/-- **partial.** Outside the explicit exclusion "the dummy address of the virtual request is a trusted proxy"
-    (decidable: `serverTrusts` of the connection with `virtualRemote`), the included sub-request's client
-    address and trusted flag do not depend on the outer request's headers. -/
-theorem include_attribution_partial (N : Net Addr Prefix) (cfg : Cfg Prefix) (c : Conn)
-    (w w' : List (Bytes × Bytes))
-    (hx : serverTrusts N cfg { c with remoteAddr := virtualRemote } = false) :
-    (serveInclude N cfg c w).clientIP = (serveInclude N cfg c w').clientIP ∧
-    (serveInclude N cfg c w).trusted = (serveInclude N cfg c w').trusted := by
+/-- **the included sub-request is attributed like the outer request.** The virtual request carries the outer
+    request's remote address and headers, so `PrepareRequest` attributes it exactly what it attributed the
+    outer request — for an untrusted outer peer therefore nothing its headers say (all `untrusted_*` theorems
+    apply to the sub-request).  (The code before the repair violated this:
+    `include_honoured_untrusted_headers_in_old_code`, Witness.lean.) -/
+theorem include_attributed_like_the_outer_request (N : Net Addr Prefix) (cfg : Cfg Prefix) (c : Conn)
+    (w : List (Bytes × Bytes)) (hr : c.remoteAddr ≠ []) :
+    serveInclude N cfg c w = serve N cfg c w := by
   unfold serveInclude
-  rw [untrusted_client_ip N cfg _ w hx, untrusted_client_ip N cfg _ w' hx, trusted_flag_iff, trusted_flag_iff]
-  exact ⟨rfl, rfl⟩
+  have : c.remoteAddr.isEmpty = false := by
+    cases h : c.remoteAddr with
+    | nil => exact absurd h hr
+    | cons a l => rfl
+  simp [this]
+
+/-- in particular, for an outer peer that is not a trusted proxy it does not depend on the headers -/
+theorem include_attribution_untrusted (N : Net Addr Prefix) (cfg : Cfg Prefix) (c : Conn)
+    (w w' : List (Bytes × Bytes)) (hr : c.remoteAddr ≠ []) (hs : serverTrusts N cfg c = false) :
+    (serveInclude N cfg c w).clientIP = (serveInclude N cfg c w').clientIP := by
+  rw [include_attributed_like_the_outer_request N cfg c w hr, include_attributed_like_the_outer_request N cfg c w' hr,
+    untrusted_client_ip N cfg c w hs, untrusted_client_ip N cfg c w' hs]
 
 /-! ## the FastCGI transport (php_fastcgi): what the application is told about the client -/
 
@@ -1067,8 +1072,8 @@ example : (serveFcgi toyNet exCfg exUntrusted ((b!"X_Forwarded_Proto", b!"http")
 example : (optionsFor (some b!":8443") [b!":80"] ⟨some [b!"10.0.0.0/8"], true, some [b!"X-Real-IP"], [], phClientIP⟩).srvRanges = none ∧
     optionsFor (some b!":8443") [b!":8443"] ⟨some [b!"10.0.0.0/8"], true, none, [], phClientIP⟩ =
       ⟨some [b!"10.0.0.0/8"], true, none, [], phClientIP⟩ := by decide
--- include_attribution_partial: with 10.0.0.0/8 trusted the dummy address 127.0.0.1:10000 is not a trusted proxy
-example : serverTrusts toyNetL { witInc with srvTrusted := some [b!"10."] } ⟨virtualRemote, false, b!"a", false⟩ = false := by decide
+-- include_attribution_untrusted: 8.8.8.8 is not trusted although loopback is
+example : serverTrusts toyNetL witInc ⟨b!"8.8.8.8:1", false, b!"a", false⟩ = false := by decide
 -- requests on one connection: three requests from the trusted 10.0.0.1 — each gets its own client, the last
 -- (no header) the peer itself
 example : (serveConnection toyNet exCfg exTrusted [[(b!"X-Forwarded-For", b!"9.9.9.9")], [(b!"X-Real-IP", b!"8.8.8.8")], []]).map (·.clientIP) =
